@@ -165,8 +165,9 @@ def run(ctx):
             if kind == "aligned":
                 x = np.array([rng.uniform(*box[0]) for _ in range(n)])
                 y = np.array([rng.uniform(*box[1]) for _ in range(n)])
-                if rng.random() < 0.4 and n > 1:
-                    x[0], y[0] = 40000.0, -35000.0       # far outside
+                flavour = rng.choice(["plain", "far-first", "far-first", "far-hemisphere"])
+                if flavour == "far-first" and n > 1:
+                    x[0], y[0] = 40000.0, -35000.0       # far outside, first in the batch (the only slowly converging entry is index 0)
             else:
                 r = np.array([rng.uniform(0.5, 0.999) * (57.29 / scale) for _ in range(n)])
                 r[0] = rng.uniform(0, 100)
@@ -177,7 +178,7 @@ def run(ctx):
             ra, dec = np.atleast_1d(ra).astype(float), np.atleast_1d(dec).astype(float)
             if rng.random() < 0.3:
                 ra[rng.randrange(n)] = np.nan
-            if kind == "aligned" and n > 2 and rng.random() < 0.5:
+            if kind == "aligned" and n > 2 and flavour == "far-hemisphere":
                 # world points in the far hemisphere (no pixel exists; the fitted starting guess is not finite there): they must be
                 # reported like any other unsolved entry
                 with np.errstate(all="ignore"):
